@@ -30,7 +30,11 @@ func (s *State) evalUnquoteCalls(quoted ast.Node) ast.Node {
 			return node
 		}
 		unquoted := s.evalInternal(call.Parameters[0])
-		return convertObjectToASTNode(unquoted)
+		res := convertObjectToASTNode(unquoted)
+		if res == nil { // not a nil node in the tree (which crashes printing/eval), an error() call instead.
+			return s.MacroErrorf("unquote: can't convert %s to code", unquoted.Type())
+		}
+		return res
 	})
 }
 
@@ -40,7 +44,7 @@ func convertObjectToASTNode(obj object.Object) ast.Node {
 	switch obj := obj.(type) {
 	case object.Integer:
 		t := token.Intern(token.INT, strconv.FormatInt(obj.Value, 10))
-		r := ast.IntegerLiteral{Val: obj.Value}
+		r := &ast.IntegerLiteral{Val: obj.Value}
 		r.Token = t
 		return r
 	case object.Boolean:
@@ -50,7 +54,7 @@ func convertObjectToASTNode(obj object.Object) ast.Node {
 		} else {
 			t = token.FALSET
 		}
-		return ast.Boolean{Base: ast.Base{Token: t}, Val: obj.Value}
+		return &ast.Boolean{Base: ast.Base{Token: t}, Val: obj.Value}
 	case object.Quote:
 		return obj.Node
 	default:
